@@ -99,7 +99,8 @@ pub(crate) fn parse_chunk(data: &[u8]) -> Result<ColorPalette> {
         )));
     }
 
-    let count = last_color_index - first_color_index + 1;
+    // Note: the range may span all of `u32`, so its length only fits in a `u64`.
+    let count = (last_color_index - first_color_index) as u64 + 1;
     //let mut entries = Vec::with_capacity(count as usize);
     let mut entries = IntMap::default();
 
@@ -115,7 +116,7 @@ pub(crate) fn parse_chunk(data: &[u8]) -> Result<ColorPalette> {
         } else {
             None
         };
-        let id = id + first_color_index;
+        let id = id as u32 + first_color_index;
         entries.insert(
             id,
             ColorPaletteEntry {
